@@ -225,6 +225,11 @@ func oracle(c *octx) *eng.Violation {
 	case "C18":
 		return first(c.outcome("action", true, false), c.mainEq("default-connection", projVisits, false))
 	case "C06":
+		if c.sc.Ctx.Kind == "cancel" {
+			// cancelled meanwhile: post (if called at all) still comes after every
+			// item event, once, and a slot is the item's real outcome or an error
+			return first(c.postAfterItems(), c.slotsHonest())
+		}
 		return first(c.slots("slot"), c.mainEq("post-once", projC06, false))
 	case "C07":
 		return first(c.lanesEq("item-trace", projFull, false), c.slots("slot"))
@@ -433,6 +438,26 @@ func (c *octx) stopOnError(boosted bool) *eng.Violation {
 				if newOn[e.Task] > 1 {
 					return c.viol("new-item-after-handled-failure", "batch node %d (stop on error, failure handled first): worker %s started %d items after item %d had failed and the failure had been handled", mb.N, e.Task, newOn[e.Task], F.I-1)
 				}
+			}
+		}
+	}
+	return nil
+}
+
+// postAfterItems: post is called at most once per batch visit and only after
+// the last event of every item of that visit.
+func (c *octx) postAfterItems() *eng.Violation {
+	for _, bv := range c.batchViews() {
+		if len(bv.post) > 1 {
+			return c.viol("post-count", "batch node %d: post was called %d times in one run", bv.mb.N, len(bv.post))
+		}
+		if len(bv.post) == 0 {
+			continue
+		}
+		p := bv.post[0]
+		for _, e := range bv.evs {
+			if e.Seq > p.Seq {
+				return c.viol("post-before-settled", "batch node %d: post started at seq %d while item %d was still being processed (%s at seq %d)", bv.mb.N, p.Seq, e.I-1, e.Kind, e.Seq)
 			}
 		}
 	}
